@@ -235,5 +235,5 @@ Lemma gen_wiring_ok : gen_wiring = shipped_wiring.
 Proof. reflexivity. Qed.
 
 (* nothing that this file is about fell out of the translated fragment *)
-Lemma gen_sat_all_translated : filter (fun s => negb (is_tie_name s)) gen_untranslated = [].
+Lemma gen_sat_all_translated : gen_untranslated_sat = [].
 Proof. reflexivity. Qed.
